@@ -114,6 +114,18 @@ Example crop_tiny_prefix_is_whole_path :
   = Ok [(false, 0%nat, 0 # 1, 1 # 1); (true, 1%nat, 0 # 1, 1 # 1); (false, 2%nat, 0 # 1, 1 # 1)].
 Proof. vm_compute; reflexivity. Qed.
 
+(* (5) T1 == 0 on a closed path: T2t(0) = (0, 0), isclose(0, 0) hands the end over to
+   (len-1, 1), and the wrap-around loops then append segments 0 .. len-2 AFTER the
+   segments i0+1 .. len-1: square.cropped(7/8, 0) should be the last half of segment 3
+   (length 1/2); it is that half followed by one more full round (length 9/2). *)
+Example crop_to_zero_extra_loop :
+  res_map shape_of (lq_cropped square (qc 7 8) (qc 0 1) (Ok (3%Z, qc 1 2)) (Ok (0%Z, qc 0 1)) (Ok true))
+  = Ok [(false, 3%nat, 1 # 2, 1 # 1); (true, 0%nat, 0 # 1, 1 # 1); (true, 1%nat, 0 # 1, 1 # 1);
+        (true, 2%nat, 0 # 1, 1 # 1); (false, 3%nat, 0 # 1, 1 # 1)]
+  /\ res_map total_len (lq_cropped square (qc 7 8) (qc 0 1) (Ok (3%Z, qc 1 2)) (Ok (0%Z, qc 0 1)) (Ok true))
+     = Ok (9 # 2).
+Proof. split; vm_compute; reflexivity. Qed.
+
 (* ---------------- the contracts used in CropPath.v hold for this instance ---------------- *)
 Lemma lq_crop_ends : forall s a b s', lq_crop s a b = Ok s' ->
   lq_pt s' (zero NumQ) = lq_pt s a /\ lq_pt s' (one NumQ) = lq_pt s b.
